@@ -356,6 +356,7 @@ def profile_c(rng, tier, cfgs):
          'q_w': [12, 1.0, 0, 1.0, 1.2, 0.3, 0.3, 0], 'near_rel': F(1, 10 ** 3), 'fill_w': [10, 1.2, 0, 0, 0, 0, 0, 1, 0.2, 0.2],
          'cap_w': [3, 6, 0, 0, 0.6, 0.2], 'dil_w': [8, 3, 1.5, 0, 0], 'stale_p': 0.1, 'min_conc_base': F(1, 10 ** 4),
          'n_events': rng.randint(8, 18 if tier == 'quick' else 28)}
+    p['p_dilute_stock'] = 0.6
     if rng.random() < 0.3:
         # swarm: a script about making solutions, mostly in solvent containers that already hold other things (enzymes too)
         p['op_w'].update(solution=4, solution_from=2, transfer=4)
